@@ -54,7 +54,7 @@ def worker(kp, job):
     rng = random.Random(seed * 7919 + idx)
     TC = kp.TokenCategory
     CATS = [c.name for c in TC]
-    g = docs.gen_doc(rng, max_spines=4)
+    g = docs.gen_doc(rng, max_spines=4, early_end=(0.25 if idx % 4 == 1 else 0.0))
     text = g.text
     bad = docs.bad_cells(kp, text)
     records = []
